@@ -245,6 +245,23 @@ class C05:
             return poly_of(e, apps[0].term[2][0]), why
         return False, why
 
+    def _expand_new_helpers(self, t, module):
+        """calls of side-effect free module functions that the reference tree does not have (accessors such as `_start_time(bounds)`
+        that became known only when the position was fixed) are replaced by their value"""
+        from sa.sym import PINNED, expand_pure_calls, fold_sub
+        if not isinstance(t, tuple) or not t:
+            return t
+        if not isinstance(t[0], str):
+            return tuple(self._expand_new_helpers(c, module) for c in t)
+        t = tuple(self._expand_new_helpers(c, module) if isinstance(c, tuple) else c for c in t)
+        if t[0] == "call" and t[1][0] == "global" and t[1][2] == "func" and ":" in t[1][1]:
+            modname, name = t[1][1].split(":")
+            if name not in PINNED.get(modname, ()) and modname in self.ctx.index.modules:
+                v = expand_pure_calls(t, self.ctx.summ, None, self.ctx.index.modules[modname])
+                if v != t:
+                    return fold_sub(v)
+        return t
+
     # ------------------------------------------------------------------ R05.3
     def check_bounds(self, full=True):
         ctx = self.ctx
@@ -491,6 +508,8 @@ class C05:
                 if lv[0] == "const" and not lv[1]:
                     continue
                 val = peval(fold_str_methods(peval(r.term, env)), {})
+                from sa.sym import fold_sub as _fs
+                val = _fs(self._expand_new_helpers(val, s.module))
                 outs.append((lv, val, r))
             rs = [x for x in s_raises if peval(fold_str_methods(peval(x.live, env)), {}) == ("const", True)]
             definite = [o for o in outs if o[0] == ("const", True)]
